@@ -6,6 +6,7 @@ from .kernels import key_of
 
 P1_, P2_ = ('param', 1), ('param', 2)
 MAPF = ('f', P1_, '0')
+MAP_VOCAB = {'new', 'default', 'insert', 'get', 'contains', 'len', 'is_empty', 'remove', 'to_vec', 'iter', 'roots', 'leaves', 'orphans', 'to_dot', 'to_dot_with_attr', 'fmt_attr', 'scc', 'scc_ordering', 'index', 'sizeof'}
 MAP_MUT = {'insert', 'remove', 'clear', 'retain', 'drain', 'entry', 'get_mut', 'iter_mut', 'values_mut', 'extend', 'remove_entry', 'try_insert', 'extract_if', 'shrink_to_fit'}
 
 
@@ -141,6 +142,12 @@ def map_rules(ctx, flavours):
                 recv = deep_unwrap(pv.of_operand(t['args'][0]))
                 if recv == MAPF and _last(callee_name(t)) in MAP_MUT:
                     ok = (name, _last(callee_name(t))) in (('insert', 'insert'), ('remove', 'remove'))
+                    if not ok and name not in MAP_VOCAB and F.fns.get(b['q'], {}).get('vis') == 'Public' and \
+                            F.types[b['locals'][1]]['k'] == 'ref' and F.types[b['locals'][1]].get('m'):
+                        # an additional public `&mut self` operation (clear, retain, ..): not one of the operations the property
+                        # speaks about; listed, not judged
+                        ctx.cache.setdefault('evidence_extra', {}).setdefault('C18', {}).setdefault('additional_member_set_operations', []).append('%s (%s)' % (b['q'], _last(callee_name(t))))
+                        continue
                     out.append(Obl('MAP', b['q'], t['sp'], 'map mutation %s' % _last(callee_name(t)), ok, 'allowed' if ok else 'member set changed outside insert/remove'))
             # the map field is never replaced
             for bb in b['blocks']:
@@ -316,15 +323,26 @@ def dot_rules(ctx, flavours):
                 return deep_unwrap(proj_field(('v', ('call', callee_name(t), tuple(pv.of_operand(a) for a in t['args']), nbi), 'Some#1'), '0'))
             # member loops: next over iter(P1)/map iter; edge loops: next over a node iterator built from MEMBER.1
             member_loops, edge_loops = {}, {}
+
+            def node_of(M):
+                return M[1] if isinstance(M, tuple) and M and M[0] == 'NODEONLY' else ('f', M, '1')
+
+            def key_terms(M):
+                if isinstance(M, tuple) and M and M[0] == 'NODEONLY':
+                    return (key_of(M[1]),)
+                return (('f', M, '0'), key_of(('f', M, '1')))
             for nbi, t in nexts.items():
                 it = deep_unwrap(pv.of_operand(t['args'][0]))
                 if _is_call(it, 'iter', 1) and it[2][0] in (P1_, MAPF):
                     member_loops[nbi] = item_of(nbi)
+                elif _is_call(it, 'values', 1) and it[2][0] == MAPF:
+                    # `for node in self.nodes.values()`: the item is the member node itself; present it as a (key(node), node) pair
+                    member_loops[nbi] = ('NODEONLY', item_of(nbi))
             for nbi, t in nexts.items():
                 it = deep_unwrap(pv.of_operand(t['args'][0]))
                 if isinstance(it, tuple) and it[0] == 'call' and re.search(r'::node::Node::(iter_out|iter)$|<&%s::node::Node as std::iter::IntoIterator>::into_iter$' % fl, it[1]):
                     for mb, M in member_loops.items():
-                        if it[2] and it[2][0] == ('f', M, '1'):
+                        if it[2] and it[2][0] == node_of(M):
                             edge_loops[nbi] = (mb, item_of(nbi))
             if not member_loops:
                 why.append('no loop over the members')
@@ -343,20 +361,20 @@ def dot_rules(ctx, flavours):
                 ns = nest(bi)
                 done = False
                 for mb, M in member_loops.items():
-                    if ns == (mb,) and len(disp) == 1 and disp[0] in (('f', M, '0'), key_of(('f', M, '1'))):
+                    if ns == (mb,) and len(disp) == 1 and disp[0] in key_terms(M):
                         member_emits.append(bi)
                         done = True
                 for eb, (mb, E) in edge_loops.items():
                     M = member_loops[mb]
                     if ns == tuple(sorted((mb, eb))) and len(disp) == 2:
-                        u_ok = disp[0] in (('f', M, '0'), key_of(('f', M, '1')), key_of(('f', E, '0')))
+                        u_ok = disp[0] in key_terms(M) + (key_of(('f', E, '0')),)
                         v_ok = disp[1] == key_of(('f', E, '1'))
                         if u_ok and v_ok:
                             if arrow not in tpl:
                                 why.append('edge statement template %s lacks "%s"' % (tpl, arrow))
                             edge_emits.append(bi)
                             done = True
-                        elif disp[0] == key_of(('f', E, '1')) and disp[1] in (('f', M, '0'), key_of(('f', E, '0'))):
+                        elif disp[0] == key_of(('f', E, '1')) and disp[1] in key_terms(M)[:1] + (key_of(('f', E, '0')),):
                             why.append('edge statement prints (target, source)')
                             done = True
                 if not done:
@@ -411,7 +429,7 @@ def dot_rules(ctx, flavours):
                         if ns:
                             why.append('graph attribute callback runs inside a loop')
                     elif len(at) == 1:
-                        if not any(ns == (mb,) and at[0] == ('f', M, '1') for mb, M in member_loops.items()):
+                        if not any(ns == (mb,) and at[0] == node_of(M) for mb, M in member_loops.items()):
                             why.append('node attribute callback is not called once per member with the member node')
                         elif not any(nest(e) == ns for e in member_emits):
                             why.append('node attributes are not written with the node statement')
